@@ -425,7 +425,10 @@ class BaseDocutilsDirective(tinydocutils.directives.Directive):
 
         rstobject_spec = self.directive_spec.rstobject
         constructor = target_directive if rstobject_spec else directive
-        node = constructor(self.directive_spec.domain or "", self.name)
+        # self.name is the name as written: with its domain when that was spelled out
+        node = constructor(
+            self.directive_spec.domain or "", util.split_domain(self.name)[1]
+        )
         node.document = self.state.document
         node.source, node.line = source, line
         node["options"] = self.options
